@@ -13,6 +13,7 @@ class C03(Prop):
         "Stgutg.Props.C03.schema_is_ts38413", "Stgutg.Props.C03.tags_are_ts38413", "Stgutg.Props.C03.table_names_distinct",
         # (a) primitives: model = X.691 clause, all inputs in the stated domain
         "Stgutg.Props.C03.constrained_eq", "Stgutg.Props.C03.length_eq", "Stgutg.Props.C03.length_constrained_eq",
+        "Stgutg.Props.C03.length_fragmented_eq",
         "Stgutg.Props.C03.integer_eq", "Stgutg.Props.C03.enumerated_eq", "Stgutg.Props.C03.bit_string_eq",
         "Stgutg.Props.C03.octet_string_eq", "Stgutg.Props.C03.choice_index_eq",
         # (b) composite types, every schema passing specOK
@@ -37,7 +38,8 @@ class C03(Prop):
             "reference mismatch); non-trivial = value with at least 12 tokens; distinct by op line")
     level_text = ("Theorems (Lean 4, generic in the schema): for every schema passing the decidable specOK/specOKc (decided for the regenerated "
                   "NGAP schema by the kernel), every type/parameter string and every regular value (int64 integers, BitString with "
-                  "ceil(n/8) octets, CHOICE with only the selected alternative set, strings and open-type contents below 16384 units), "
+                  "ceil(n/8) octets, CHOICE with only the selected alternative set; strings and open-type contents of ANY length, "
+                  "fragmented from 16K items on as X.691 11.9.3.8 prescribes), "
                   "the encoder model (marshal.go, branch for branch) returns bits exactly when the X.691 ALIGNED PER specification "
                   "defines an encoding, and then returns that encoding (encode_iff, C03_encode_iff, C03_container_iff); corollaries: "
                   "what the model writes is canonical (encode_eq_spec, C03_encode_canonical), a value the specification does not encode "
@@ -46,12 +48,12 @@ class C03(Prop):
                   "struct tags = hand-transcribed TS 38.413 constraints for 150 simple + 32 list types (tags_are_ts38413); model tied to "
                   "marshal.go by the differential run, which also compares the implementation with the specification oracle directly")
     technique = "Lean 4 proof (encoder model = X.691 specification, generic in the schema) + kernel-decided schema predicate + schema translator + differential correspondence"
-    partial_note = ("fragmented lengths (>= 16384) are outside the theorems as the property arranges (decided differentially under their own "
-                    "finding key); constraints of the types not tabled in Spec/Ts38413Leaf are trusted from the tags; the tie between the "
-                    "encoder model and marshal.go is differential, not proved")
+    partial_note = ("a SEQUENCE OF whose count would be a general length of 16384 or more is refused by the library and not covered by the "
+                    "specification (no NGAP list but UEAssociatedLogicalNGConnectionList 1..65536 can be that long); constraints of the types "
+                    "not tabled in Spec/Ts38413Leaf are trusted from the tags; the tie between the encoder model and marshal.go is "
+                    "differential, not proved")
     assumptions = ["values are regular Go representations (Stgutg.Proofs.AperSpec.regular): int64 integers, BitString.Bytes of exactly "
-                   "ceil(BitLength/8) octets, CHOICE structs with only the selected alternative non-nil",
-                   "every string is shorter than 16384 units and every open-type content shorter than 16384 octets (no fragmentation)"]
+                   "ceil(BitLength/8) octets, CHOICE structs with only the selected alternative non-nil"]
 
     def key(self, op, impl, model, spec):
         t = op.split(" ")
